@@ -20,6 +20,11 @@ CLAIMS = {
          "own paddings < allowed_padding_packets, or machine fraction below max_padding_frac (if set) and global fraction below the framework limit (if set), "
          "as exact rational inequalities against the exact value of the f64 limits (Flocq proof of the division/rounding step; guard: < 2^53 packets). "
          "C02_accounting: the counters are a function of the reported events only.", "DESIGN.md section 4, C02"),
+ "C03": ("Theorems C03_budget / C03_budget_exact: a BlockOutgoing returned by a single-event call implies (replace flag and blocking active) or blocked time "
+         "below allowed_blocked_microsec or blocked share below both limits (if set), the blocked time being the accounting recount acct_hist -- proved to be a "
+         "function of the BlockingBegin/BlockingEnd reports and call timestamps only (begin while active / end while inactive ignored, backwards time = 0 elapsed, "
+         "ongoing block counted to now). For the microsecond virtual clock the share is the exact rational blocked/elapsed (Flocq proof, values < 2^53 us); "
+         "for any other clock it is the clock's own f64 quotient.", "DESIGN.md section 4, C03"),
  "C04": ("Theorems C04_contract, C04_one_day, C04_end_absorbing(_call): returned actions name pairwise distinct existing machines, each has the "
          "kind and flags of an action of that machine, every timeout/duration is <= 86_400_000_000 us for every oracle value (Flocq proof "
          "of the clamp, NaN/inf included), and a machine in STATE_END never acts again in any later call of any history.", "DESIGN.md section 4, C04"),
